@@ -4,6 +4,8 @@ CONSTANTS
   NSig = 2
   MaxOps = 7
   DeepLock = TRUE
+  BadSig = 0
+  UnlockOnFail = TRUE
   MixinsUpdate = TRUE
 VIEW view
 INVARIANT UsedConsistent
